@@ -694,7 +694,7 @@ class Gen:
             else:
                 bl = self.blocks(depth + 1, in_quote=in_quote, in_list=True, n=rng.choice((1, 1, 2, 3)))
             items.append(Node('item', blocks=bl, pad=rng.choice((1, 1, 1, 2, 3, 4)),
-                              blank_start=opt.blank_start_items and rng.random() < 0.05 and bl and bl[0].kind in ('para', 'atx', 'fence')))
+                              blank_start=opt.blank_start_items and rng.random() < 0.05 and bl and bl[0].kind in ('para', 'atx', 'fence', 'hr')))
         if items and not items[-1].blocks and not opt.empty_last_item:
             items.append(Node('item', blocks=[self.para()], pad=1, blank_start=False))
         for it in items[1:]:
@@ -819,7 +819,7 @@ def check_tree(blocks, opt, ctx='doc', in_quote=False, last_chain=True):
                         raise AssertionError('hr spelling as first block of an item')
                     if j and first_leaf_kind(it) == 'table' and not opt.table_first_in_item:
                         raise AssertionError('table starts a later item (known finding)')
-                    if it.blank_start and it.blocks[0].kind not in ('para', 'atx', 'fence'):
+                    if it.blank_start and it.blocks[0].kind not in ('para', 'atx', 'fence', 'hr'):
                         raise AssertionError('blank-start item content')
                     check_tree(it.blocks, opt, 'item', in_quote, is_last and j == len(nd.items) - 1)
         prev = nd
